@@ -363,7 +363,7 @@ Section Move.
         * left. split; [exact H1|]. destruct (mv_fields (home r)) as (_ & _ & _ & _ & _ & ->).
           destruct (Nat.eqb_spec (home r) P) as [E|]; [|exact H2]. apply in_app_last. left. rewrite E in H2. exact H2.
         * right. split; [rewrite mv_home_other by exact Hne; exact H1|]. destruct H2 as [E|H2]; [congruence|exact H2].
-    - intros q Hq. destruct (mv_fields q) as (_ & _ & _ & -> & -> & ->). destruct (Imarks q Hq) as [H1 H2]. split; [exact H1|].
+    - intros q Hq. destruct (mv_fields q) as (_ & _ & -> & -> & -> & ->). destruct (Imarks q Hq) as [H1 H2]. split; [exact H1|].
       destruct (Nat.eqb_spec q P) as [->|]; [|exact H2]. rewrite len_app_last. unfold psc. lia.
   Qed.
 
